@@ -25,7 +25,7 @@ inductive Prog
   | seq (p q : Prog)
   | scan (len : String) (body : Prog)     -- lax.scan / for-loop with `len` iterations
   | alt (p q : Prog)                      -- option-dependent branch (either may be taken)
-deriving Repr
+deriving DecidableEq, Repr
 
 /-- abstract coherence of the cache: `coh` = certainly coherent, `stale` = unknown -/
 inductive Coh | coh | stale
@@ -153,5 +153,20 @@ def flatten (ρ : String → Nat) : Prog → List Bool → List Op
     | true :: β' => flatten ρ p β'
     | false :: β' => flatten ρ q β'
     | [] => flatten ρ p []
+
+/-- remove the `other` operations whose tag is in `tags` (used to compare entry points that differ
+only by operations that are the identity under a stated hypothesis, e.g. `optimize` on a converged
+trial) -/
+def eraseTags (tags : List String) : Prog → Prog
+  | .skip => .skip
+  | .op (.other t) => if tags.contains t then .skip else .op (.other t)
+  | .op o => .op o
+  | .seq p q =>
+    match eraseTags tags p, eraseTags tags q with
+    | .skip, q' => q'
+    | p', .skip => p'
+    | p', q' => .seq p' q'
+  | .scan l b => .scan l (eraseTags tags b)
+  | .alt p q => .alt (eraseTags tags p) (eraseTags tags q)
 
 end AfqmcVerif.Machine
